@@ -142,6 +142,30 @@ Theorem C13_multi_message : forall (st : rstate) (peer : N) (ms : list wmsg) (pa
 Proof. exact multi_message. Qed.
 Print Assumptions C13_multi_message.
 
+(** The pacing queue of a conversation ([TxSendWait]): a priority lane
+    (non-transfer messages) and a paced lane (transfer datagrams).  Whatever
+    the interleaving of enqueues and ticks and whatever the token budgets,
+    what has been emitted on a lane followed by what is still pending on it is
+    exactly what was enqueued on it, in order: nothing is dropped, duplicated
+    or reordered; and a last tick with enough tokens leaves nothing pending.
+    (The token arithmetic itself is not modelled: the budget of each tick is
+    an input; the harness feeds the budgets it observes on the real queue.) *)
+Theorem C13_pacing_conserves :
+  forall (D : Type) (lane : bool) (evs : list (pq_ev D)) (st : pq D) (out : list (bool * D)) (st' : pq D),
+  pq_run D st evs = (out, st') ->
+  lane_of D lane out ++ (if lane then q_pri D st' else q_paced D st')
+  = (if lane then q_pri D st else q_paced D st) ++ enq_of D lane evs.
+Proof. exact pacing_conserves. Qed.
+Print Assumptions C13_pacing_conserves.
+
+Theorem C13_pacing_drains :
+  forall (D : Type) (lane : bool) (evs : list (pq_ev D)) (n : nat) (out : list (bool * D)) (st' : pq D),
+  pq_run D (mk_pq D [] []) (evs ++ [Tick D n]) = (out, st') ->
+  (length (enq_of D false evs) <= n)%nat ->
+  lane_of D lane out = enq_of D lane evs /\ q_pri D st' = [] /\ q_paced D st' = [].
+Proof. exact pacing_drains. Qed.
+Print Assumptions C13_pacing_drains.
+
 (** Observation (not a violation, see the header): below the feasibility
     bound the loop of [_send_transfer] never ends, whatever the fuel. *)
 Theorem C13_infeasible_never_ends : forall (data : bytes) (mtu xid : N),
